@@ -97,7 +97,10 @@ where
 
     #[inline(always)]
     fn progress_and_get_begin_idx(&self, number_to_fetch: usize) -> Option<usize> {
-        let begin_idx = self.counter().fetch_and_add(number_to_fetch);
+        // no more than `initial_len` positions are ever needed: clamping keeps the counter from wrapping for huge requests
+        let begin_idx = self
+            .counter()
+            .fetch_and_add(number_to_fetch.min(self.initial_len()));
         match begin_idx.cmp(&self.initial_len()) {
             Ordering::Less => Some(begin_idx),
             _ => None,
@@ -119,7 +122,7 @@ where
             .unwrap_or(self.initial_len());
         let begin_value = begin_idx + self.range.start.into();
         let end_value = match begin_value.cmp(&self.range.end.into()) {
-            Ordering::Less => (begin_value + n).min(self.range.end.into()),
+            Ordering::Less => begin_value.saturating_add(n).min(self.range.end.into()),
             _ => begin_value,
         };
         let end_idx: usize = end_value - self.range.start.into();
